@@ -76,7 +76,9 @@ func sendBufferRounds(run *vk.Run) {
 				ewg.Add(1)
 				go func(g int) {
 					defer ewg.Done()
-					for seq := int64(0); !stop.Load() && seq < 200000; seq++ {
+					// capped: on a stalled machine the connect can take long, and a backlog of millions of events
+					// would turn the delivery deadline below into a throughput test
+					for seq := int64(0); !stop.Load() && seq < 30000; seq++ {
 						sock.Emit("o", g, seq)
 						counts[g] = seq + 1
 					}
@@ -128,7 +130,23 @@ func sendBufferRounds(run *vk.Run) {
 				return
 			}
 			// nothing is emitted any more: whatever was handed to Emit has to arrive on its own
-			all := vk.WaitUntil(10*time.Second, func() bool { n, _ := onWire(); return n >= total })
+			// judged on progress, not on a deadline: stranded = the wire count has not moved for 10 s
+			all := false
+			var last int64 = -1
+			lastMove := time.Now()
+			for {
+				n, _ := onWire()
+				if n >= total {
+					all = true
+					break
+				}
+				if n != last {
+					last, lastMove = n, time.Now()
+				} else if time.Since(lastMove) > 10*time.Second {
+					break
+				}
+				time.Sleep(50 * time.Millisecond)
+			}
 			run.Count("sendbuf_rounds", 1)
 			run.Count("sendbuf_events", total)
 			if all {
@@ -145,7 +163,7 @@ func sendBufferRounds(run *vk.Run) {
 			n1, _ := onWire()
 			stranded.Add(1)
 			run.Violation(vk.Violation{Sub: "stranded-in-send-buffer", Fields: map[string]any{"layer": "sio-send-buffer", "transport": p.transport},
-				What: fmt.Sprintf("%d events were handed to Emit around the connect, the socket is connected and idle, but only %d reached the wire within 10 s with no later traffic; after one more emit %d had arrived (all: %v) (round %d, %d emitters, %s)",
+				What: fmt.Sprintf("%d events were handed to Emit around the connect, the socket is connected and idle, but only %d reached the wire and the count has not moved for 10 s with no later traffic; after one more emit %d had arrived (all: %v) (round %d, %d emitters, %s)",
 					total, n0, n1, flushed, i, p.emitters, p.transport),
 				Witness: map[string]any{"round": i, "seed": run.Seed(), "emitted_per_emitter": counts, "on_wire_per_emitter": per0, "spin_us": p.spin.Microseconds(), "tail_us": p.tail.Microseconds()}})
 		}(i, p)
